@@ -2,6 +2,7 @@ package sym
 
 import (
 	"fmt"
+	"os"
 	"go/constant"
 	"go/token"
 	"go/types"
@@ -1252,7 +1253,7 @@ func (e *Engine) recordViolation(st *State, sol *Solver, v *Violation) {
 	if len(st.Classes) > 0 && v.Class == "" {
 		v.Class = strings.Join(st.Classes, "+")
 	}
-	key := v.Kind + "|" + v.Label + "|" + v.Fn + "|" + v.Class
+	key := v.Kind + "|" + v.Label + "|" + v.Fn + "|" + v.Class + "|" + st.Variant
 	e.mu.Lock()
 	if e.vioSeen[key] {
 		e.mu.Unlock()
@@ -1308,6 +1309,9 @@ func (e *Engine) Model(sol *Solver, st *State, extra ...*Term) ([]NondetVal, boo
 		}
 	}
 	if r != Sat {
+		if os.Getenv("GOSYM_DEBUG") != "" {
+			fmt.Fprintf(os.Stderr, "model extraction failed: result=%v (0=sat 1=unsat 2=unknown) at %s\n", r, e.curPos(st))
+		}
 		return nil, false
 	}
 	var out []NondetVal
